@@ -734,6 +734,102 @@ theorem json_not_an_object_flagged (dbg : DebugOracle) (doc : Json) (h : ∀ fs,
   | str s => exact ⟨Or.inr rfl, Or.inr rfl⟩
   | arr xs => exact ⟨Or.inr rfl, Or.inr rfl⟩
 
+/-! ### the `debug` member of a detail: type URLs with any prefix
+
+`examineConnectErrorDetailDebugData` accepts the debug data either as the detail's message or as
+that message rendered as a `google.protobuf.Any` (older connect-go and other encoders write it so).
+The protobuf libraries are outside the model (`DebugSteps`: the outcome of each call, computed by
+the harness with the real libraries); the decisions are modelled - in particular which message
+type a type URL stands for. -/
+
+/-- **Only the text after the last slash of a type URL names the type, for every prefix**: no
+prefix but the slash, the default host, another host, a host with a path, several slashes, or
+no slash at all. -/
+theorem type_url_name_every_prefix (p n : Bytes) (hn : (47 : UInt8) ∉ n) :
+    typeNameOfUrl (p ++ 47 :: n) = n ∧ typeNameOfUrl n = n :=
+  ⟨typeNameOfUrl_prefixed p n hn, typeNameOfUrl_noSlash n hn⟩
+
+example : (47 : UInt8) ∉ bs "a.B" ∧
+    typeNameOfUrl (bs "type.googleapis.com/a.B") = bs "a.B" ∧ typeNameOfUrl (bs "/a.B") = bs "a.B" ∧
+    typeNameOfUrl (bs "example.com/schemas/v1/a.B") = bs "a.B" ∧ typeNameOfUrl (bs "//a.B") = bs "a.B" ∧
+    typeNameOfUrl (bs "a.B") = bs "a.B" ∧ typeNameOfUrl (bs "a.B/") = [] := by decide
+
+/-- The name the examiner extracts is `n` exactly for the URLs that name `n` (declaratively: `n`
+has no slash and the URL is `n` or ends in `/n`). -/
+theorem type_url_name_iff (url n : Bytes) : typeNameOfUrl url = n ↔ urlNames url n = true :=
+  typeNameOfUrl_iff url n
+
+/-- The debug comparison is silent exactly on well-formed debug data: known type, value of that
+type, and the debug data is that message - as itself or in `Any` form under a type URL that names
+the type, whatever its prefix. -/
+theorem debug_data_silent_iff_wellformed (msgName : Bytes) (s : DebugSteps) :
+    debugDataFb msgName s = none ↔ debugOK msgName s = true := debugDataFb_none_iff msgName s
+
+/-- Debug data in `Any` form is accepted under EVERY type URL prefix. -/
+theorem debug_any_form_clean_every_prefix (p n : Bytes) (s : DebugSteps) (hn : (47 : UInt8) ∉ n)
+    (hr : s.resolved = true) (hv : s.valueOK = true) (hu : s.anyUrl = some (p ++ 47 :: n))
+    (hnew : s.newOK = true) (he : s.eqAny = true) (hd : s.directOK = true → s.eqDirect = true) :
+    debugDataFb n s = none := by
+  rw [debugDataFb_none_iff]
+  have hnames : urlNames (p ++ 47 :: n) n = true := (typeNameOfUrl_iff _ _).mp (typeNameOfUrl_prefixed p n hn)
+  unfold debugOK
+  cases hdo : s.directOK with
+  | true => simp [hr, hv, hd hdo]
+  | false => simp [hr, hv, hu, hnames, hnew, he]
+
+/-- non-vacuity: custom host with a path -/
+example :
+    let s : DebugSteps := ⟨true, true, false, false, some (bs "example.com/schemas/v1/a.B"), true, true⟩
+    debugDataFb (bs "a.B") s = none ∧ debugDataFb (bs "a.C") s = some .type ∧
+    debugDataFb (bs "a.B") { s with eqAny := false } = some .mismatch := by decide
+
+/-- Debug data in `Any` form whose type URL names another type is reported as such. -/
+theorem debug_wrong_type_flagged (msgName : Bytes) (s : DebugSteps) (h : mustFlagDebugType msgName s = true) :
+    debugDataFb msgName s = some .type := by
+  unfold mustFlagDebugType at h
+  simp only [Bool.and_eq_true, Bool.not_eq_true'] at h
+  obtain ⟨⟨⟨hr, hv⟩, hd⟩, hu⟩ := h
+  cases hau : s.anyUrl with
+  | none => simp [hau] at hu
+  | some url =>
+    simp only [hau, Bool.not_eq_true'] at hu
+    have hne : typeNameOfUrl url ≠ msgName := fun e => by
+      rw [(typeNameOfUrl_iff url msgName).mp e] at hu; cases hu
+    simp [debugDataFb, hr, hv, hd, hau, hne]
+
+example : mustFlagDebugType (bs "a.B")
+    ⟨true, true, false, false, some (bs "type.googleapis.com/a.B.C"), true, false⟩ = true := by decide
+
+/-- The Connect error connect-go writes, with `debug` members in `Any` form under any type URL
+prefix (or in plain form), yields no feedback: `own_connect_error_clean` for the comparison
+derived from the library outcomes, with the hypothesis on the declarative side (`debugOK`). -/
+theorem own_connect_error_clean_any_form (st : StepsOracle) (code : Nat) (msg : Bytes) (details : List Detail)
+    (hc : 1 ≤ code ∧ code ≤ 16) (hd : detailsFine (debugSpecOracle st) 0 details = true) :
+    examineConnectError (stepsOracle st) (encodeError code msg details) = [] := by
+  apply own_connect_error_clean (stepsOracle st) code msg details hc
+  rw [detailsFine_congr (steps_spec_isNone st)]
+  exact hd
+
+/-- non-vacuity: a detail whose debug data is in `Any` form with a custom prefix -/
+example :
+    let st : StepsOracle := fun _ _ _ => ⟨true, true, false, false, some (bs "types.example.com/a.B"), true, true⟩
+    let details : List Detail := [⟨bs "a.B", [10, 1, 97],
+      some (.obj [(bs "@type", .str (bs "types.example.com/a.B")), (bs "value", .str (bs "a"))])⟩]
+    detailsFine (debugSpecOracle st) 0 details = true ∧
+    examineConnectError (stepsOracle st) (encodeError 13 (bs "oops") details) = [] := by decide
+
+/-- The property's predicates - with the declarative oracle (`debugOK`) - hold of the examiners'
+output when the comparison is the modelled one: the form the correspondence check evaluates. -/
+theorem connect_spec_with_debug_model (st : StepsOracle) (doc : Json) :
+    errorHolds (debugSpecOracle st) doc (examineConnectError (stepsOracle st) doc) = true ∧
+    endStreamHolds (debugSpecOracle st) doc (examineConnectEndStream (stepsOracle st) doc) = true := by
+  have h1 := connect_error_spec (stepsOracle st) doc
+  have h2 := connect_end_stream_spec (stepsOracle st) doc
+  unfold errorHolds at h1 ⊢
+  unfold endStreamHolds at h2 ⊢
+  rw [← errorOK_congr (steps_spec_isNone st), ← endStreamOK_congr (steps_spec_isNone st)]
+  exact ⟨h1, h2⟩
+
 /-! ### non-vacuity of the hypotheses and of the declarative side -/
 
 example :
